@@ -257,6 +257,9 @@ func jobC13(c *rt.Ctx) {
 		{"nil-key", func(t *triple) { t.key = nil }},
 		{"key31", func(t *triple) { t.key = msgLen(31, 4) }},
 		{"key33", func(t *triple) { t.key = append(append([]byte{}, t.key...), 0) }},
+		{"key64", func(t *triple) { t.key = append(append([]byte{}, t.key...), t.key...) }},
+		{"key0", func(t *triple) { t.key = []byte{} }},
+		{"msg-huge", func(t *triple) { t.msg = make([]byte, 70000) }},
 		{"nil-sig", func(t *triple) { t.sig = nil }},
 		{"sig0", func(t *triple) { t.sig = []byte{} }},
 		{"sig1", func(t *triple) { t.sig = msgLen(1, 9) }},
